@@ -829,6 +829,11 @@ class _Raised(Exception):
     pass
 
 
+class _Returned(Exception):
+    def __init__(self, value):
+        self.value = value
+
+
 class _Stub:
     """An abstract value: attributes and zero-argument methods are looked up in a table (never in repository code)."""
 
@@ -837,6 +842,14 @@ class _Stub:
 
     def __repr__(self):
         return self._name
+
+    def __eq__(self, o):
+        if isinstance(o, _Stub) and "_key" in self._table and "_key" in o._table:
+            return self._table["_key"] == o._table["_key"]
+        return self is o
+
+    def __hash__(self):
+        return hash(self._table.get("_key", id(self)))
 
 
 class _OrderInterp:
@@ -876,6 +889,8 @@ class _OrderInterp:
                 continue
             elif isinstance(s, ast.Return) and s.value is None:
                 raise _Yielded()
+            elif isinstance(s, ast.Return):
+                raise _Returned(self._expr(s.value, env))
             elif isinstance(s, ast.Assign) and len(s.targets) == 1 and isinstance(s.targets[0], ast.Subscript):
                 self._expr(s.targets[0].value, env)[self._expr(s.targets[0].slice, env)] = self._expr(s.value, env)
             elif isinstance(s, ast.Raise):
@@ -962,6 +977,17 @@ class _OrderInterp:
                 if e.func.attr in base._table:
                     return base._table[e.func.attr]
                 raise self.Unsupported(f"method {e.func.attr}")
+        if isinstance(e, ast.Call) and isinstance(e.func, ast.Name) and e.func.id in getattr(self, "helpers", {}):
+            h = self.helpers[e.func.id]
+            hp = [a.arg for a in h.args.args]
+            henv = dict(zip(hp, [self._expr(a, env) for a in e.args]))
+            try:
+                self._block(h.body, henv)
+            except _Returned as r:
+                return r.value
+            return None
+        if isinstance(e, ast.Call) and isinstance(e.func, ast.Name) and e.func.id == "cast" and len(e.args) == 2:
+            return self._expr(e.args[1], env)
         if isinstance(e, ast.Call):
             fn = norm(e.func)
             if fn == "Fraction" and len(e.args) == 1:
@@ -1357,7 +1383,75 @@ def c13(idx: Index, rep: Report, tier: str) -> None:
         rep.check(ok, rule, "the free variables of each inserted value are compared with the bound variables", pw.loc(l), construct=f"get_free_variables({vname})" if ok else f"the loop over the map consults get_free_variables of {sorted(consulted)} only, never of the value", detail="" if ok else "a value that mentions a variable with the name of a variable bound inside the expression is inserted under that quantifier and captured: substituting x := y in `Forall y. q(x, y)` gives `Forall y. q(y, y)`; Simplifier.walk_exists relies on this substitution, so `Exists x. (x == y and Forall y. q(x, y))` simplifies to `Forall y. q(y, y)`", function=pw.qualname)
 
 
-EXTRA3 = {"C13": c13, "C07": c07, "C12": c12, "C11": c11, "C10": c10, "C06": c06, "C04": c04, "C05": c05, "C01": c01, "C02": c02, "C03": c03, "C08": c08, "C35": c35, "C38": c38, "C36": c36, "C32": c32, "C33": c33, "C31": c31, "C17": c17, "C25": c25, "C20": c20, "C27": c27, "C28": c28}
+
+def bounded_type_selection(idx: Index, rep: Report, rule: str) -> None:
+    """BoundedTypesRemover rewrites a numeric fluent exactly when its type has a lower *or* an upper bound. The guard
+    of the rewriting branch is evaluated on the four combinations (bound present / absent) x (int / real)."""
+    f = idx.func("engines.compilers.bounded_types_remover.BoundedTypesRemover._compile")
+    mod = f.module
+    branches = [i for i in ast.walk(f.node) if isinstance(i, ast.If) and any(isinstance(a, ast.Assign) and isinstance(a.value, ast.Call) and call_name(a.value) == "Fluent" for st in i.body for a in ast.walk(st))]
+    if not branches:
+        raise AnalysisError(f"{rule}: the branch that rebuilds a bounded fluent was not found in BoundedTypesRemover._compile")
+    top = branches[0]
+    chain = []
+    cur = top
+    while isinstance(cur, ast.If):
+        chain.append(cur)
+        cur = cur.orelse[0] if len(cur.orelse) == 1 and isinstance(cur.orelse[0], ast.If) else None
+    loop = [l for l in ast.walk(f.node) if isinstance(l, ast.For) and any(x is top for x in ast.walk(l))]
+    if not loop or not isinstance(loop[0].target, ast.Name):
+        rep.inconclusive(rule, "BoundedTypesRemover._compile: loop over the fluents not recognised", f.loc(top), function=f.qualname)
+        return
+    fl = loop[0].target.id
+    interp = _OrderInterp(f.node)
+    interp.helpers = {name: fi.node for name, fi in mod.functions.items()}
+
+    def ty(kind, lo, hi):
+        return _Stub(f"{kind}[{lo},{hi}]", is_int_type=(kind == "int"), is_real_type=(kind == "real"), lower_bound=lo, upper_bound=hi, _key=(kind, lo, hi))
+
+    consts = {}
+    for a in walk_no_nested(f.node):
+        if isinstance(a, ast.Assign) and isinstance(a.targets[0], ast.Name) and isinstance(a.value, ast.Call) and call_name(a.value) in ("IntType", "RealType") and not a.value.args and not a.value.keywords:
+            consts[a.targets[0].id] = ty("int" if call_name(a.value) == "IntType" else "real", None, None)
+    n = 0
+    try:
+        for kind in ("int", "real"):
+            for lo in (None, 0):
+                for hi in (None, 5):
+                    env = dict(consts)
+                    env["self"] = None
+                    env[fl] = _Stub("fluent", type=ty(kind, lo, hi))
+                    taken = any(bool(interp._expr(c.test, dict(env))) for c in chain)
+                    want = lo is not None or hi is not None
+                    n += 1
+                    rep.check(taken == want, rule, f"a fluent of type {kind}[{lo}, {hi}] is " + ("rewritten to the unbounded type" if want else "left as it is"), f.loc(top), construct=f"{kind}[{lo}, {hi}]: rewritten={taken}", detail="" if taken == want else "a fluent whose type is bounded on one side only keeps its bounded type: the compiled problem still has BOUNDED_TYPES (undeclared) and the bound is not turned into a condition", function=f.qualname)
+    except _OrderInterp.Unsupported as u:
+        rep.inconclusive(rule, f"the guard of the rewriting branch is not interpretable ({u})", f.loc(top), function=f.qualname)
+        return
+    rep.count("bound_combinations", n)
+
+
+def undefined_fluents_all_handled(idx: Index, rep: Report, rule: str) -> None:
+    """UndefinedInitialNumericRemover gives a value and a tracker to *every* fluent with undefined values: the
+    collection it works on is the result of _fluents_with_undefined_values(), not a filtered part of it."""
+    f = idx.func("engines.compilers.undefined_initial_numeric_remover.UndefinedInitialNumericRemover._compile")
+    uses = [a for a in walk_no_nested(f.node) if isinstance(a, ast.Assign) and any(isinstance(c, ast.Call) and call_name(c) == "_fluents_with_undefined_values" for c in ast.walk(a.value))]
+    if not uses:
+        raise AnalysisError(f"{rule}: _fluents_with_undefined_values() is no longer consulted")
+    for a in uses:
+        v = a.value
+        while isinstance(v, ast.Call) and call_name(v) in ("list", "set", "sorted", "tuple", "frozenset") and len(v.args) == 1:
+            v = v.args[0]
+        ok = isinstance(v, ast.Call) and call_name(v) == "_fluents_with_undefined_values"
+        rep.check(ok, rule, "every fluent with undefined values is handled", f.loc(a), construct=norm(a)[:100], detail="" if ok else "only a filtered part of the fluents with undefined initial values gets a value: the others stay undefined and the compiled problem still has UNDEFINED_INITIAL_NUMERIC, which resulting_problem_kind declares removed", function=f.qualname)
+
+
+def c09(idx: Index, rep: Report, tier: str) -> None:
+    bounded_type_selection(idx, rep, "C09.6 T15 bounded-type-selection")
+    undefined_fluents_all_handled(idx, rep, "C09.7 T1 undefined-fluents-all-handled")
+
+
+EXTRA3 = {"C09": c09, "C13": c13, "C07": c07, "C12": c12, "C11": c11, "C10": c10, "C06": c06, "C04": c04, "C05": c05, "C01": c01, "C02": c02, "C03": c03, "C08": c08, "C35": c35, "C38": c38, "C36": c36, "C32": c32, "C33": c33, "C31": c31, "C17": c17, "C25": c25, "C20": c20, "C27": c27, "C28": c28}
 
 
 def run_extra3(prop: str, idx: Index, rep: Report, tier: str) -> None:
